@@ -869,7 +869,7 @@ _unicodedata_facade.normalize = _sym_normalize  # type: ignore
 def _make_prep_facade() -> Any:
     """pysasl.prep with saslprep() exact on ASCII symbolic text: ASCII is mapped to itself, and exactly the ASCII
     control characters (RFC 3454 C.2.1: U+0000-001F, U+007F) are prohibited (difftest compares this with the real
-    function on every ASCII string of length <= 2); symbolic text that may be non-ASCII is unsupported"""
+    function on every ASCII string of length <= 2); for symbolic non-ASCII characters see the comment below"""
     import pysasl.prep as real
     fac = types.ModuleType('pysasl.prep')
     fac.__dict__.update(vars(real))
@@ -880,7 +880,12 @@ def _make_prep_facade() -> Any:
         for c in source.items:
             if is_sym(c):
                 if bool(c > 0x7f):
-                    raise Unsupported('saslprep of symbolic non-ASCII text')
+                    # outside ASCII the tables are not modelled: the documented contract is "a prepared string or
+                    # ValueError" - both are explored (the string is kept as it is, an approximation of the mapping
+                    # step; a counterexample that depends on it fails its replay and is reported as inconclusive)
+                    if cur().flip('saslprep_prohibits_non_ascii'):
+                        raise ValueError(source)
+                    continue
                 if bool(c <= 0x1f) or bool(c == 0x7f):
                     raise ValueError(source)
             elif c > 0x7f:
